@@ -71,11 +71,11 @@ CHECKS = {
    note=TB + " Partial: what sled makes durable on a process kill is sled's behaviour (exercised via close/reopen only); the flag cache is not persisted (open finding under C15); two frame statements are proved in the corrected form the proof forced (sibling write-back, overshoot of the open C08 batch shapes).",
    design="§5 C16", technique="Lean 4 proof (store model with failure schedule) + exhaustive fault-position enumeration against the model"),
  "C17": dict(
-   text="Lean 4 theorem: for every history of single-leaf writes, appends and deletions the three tree backend models report the same roots, leaves, leaf counts and membership paths (each refines the ideal tree), and the common path is in the circuit's format; with C01/C02 (key material is a parameter of the SNARK contract) a message accepted under one configuration is accepted under the others. The hypothesis 'same key' and the real builds are discharged by execution: five builds (default, fullmerkletree, no-default/optimal, arkzkey, stateless) of one program against the current /repo; zkey vs arkzkey compared with == and by digest; histories replayed under every backend; messages cross-verified, incl. the stateless prover / verifier.",
+   text="Lean 4 theorem: for every history of single-leaf writes, appends and deletions the three tree backend models report the same roots, leaves, leaf counts and membership paths (each refines the ideal tree), and the common path is in the circuit's format; with C01/C02 (key material is a parameter of the SNARK contract) a message accepted under one configuration is accepted under the others. The hypothesis 'same key' and the real builds are discharged by execution: five builds (default, fullmerkletree, no-default/optimal, arkzkey, stateless) of one program against the current /repo; zkey vs arkzkey compared with == and by digest; histories replayed under every backend; messages cross-verified, incl. the stateless prover / verifier. The snarkjs key-file reader (zkey.rs) is modelled (ZkModel/Zkey.lean) with theorems for every byte string / record list (cursor semantics, first section wins, missing section panics, section order irrelevant, matrix rows = the file's records in order divided by R^2, truncation to max - n_public rows); tie: the bundled 3.4 MB key read natively by the Lean driver = read_zkey through Cursor / BufReader / chunked readers = the key the build loaded, plus generated key files with 23 kinds of deviation.",
    note=TB + " Partial: key-file equality is a concrete-data check; the fullmerkletree configuration did not compile before the recorded fix.",
    design="§5 C17", technique="Lean 4 proof (backends agree via refinement) + multi-configuration differential builds"),
  "C18": dict(
-   text="Lean 4 theorems: pmtree's batch_recalculate task tree writes pairwise different keys and never reads a written key, so the sequential model's result equals a schedule-free value function and its final map is what ANY completion order of the writes produces; cell-wise vector fills (the witness map's cfg_iter_mut stages) do not depend on the visiting order; the database-open retry makes at most ten attempts, succeeds exactly when an attempt succeeds after only busy answers, and sleeps 10^k ms before attempt k+1. Execution: one workload under 1/2/4/16 rayon threads with bit-identical transcripts (and equal to model/spec), N threads issuing read-only calls on one shared instance against the sequential results with a watchdog, drop + re-create loops.",
+   text="Lean 4 theorems: pmtree's batch_recalculate task tree writes pairwise different keys and never reads a written key, so the sequential model's result equals a schedule-free value function and its final map is what ANY completion order of the writes produces; cell-wise vector fills (the witness map's cfg_iter_mut stages) do not depend on the visiting order; the database-open retry makes at most ten attempts, succeeds exactly when an attempt succeeds after only busy answers, and sleeps 10^k ms before attempt k+1; for the witness map (ZkModel/Qap.lean): model and Lagrange-form specification fail on the same inputs, return one value per domain element, err only on a missing domain (the equality of the transform pipeline with the Lagrange form is compared by execution, not proved). Execution: witness_map_from_matrices on generated constraint systems under 1 and 4 worker threads = model = specification; one workload under 1/2/4/16 rayon threads with bit-identical transcripts (and equal to model/spec), N threads issuing read-only calls on one shared instance against the sequential results with a watchdog, drop + re-create loops.",
    note=TB + " Partial: absence of deadlock, lazy initialisation, sled's file lock and real timing are runtime behaviour (sampled).",
    design="§5 C18", technique="Lean 4 proof (schedule independence, retry bound) + execution under varying worker pools"),
  "C20": dict(
